@@ -59,9 +59,9 @@ def _apply_module_renames(d, base_fns, base_adts):
     bp, cp = by_parent(base_items), by_parent(cur_items)
     pairs = {}
     for pm, leaves in bp.items():
-        if pm in cp or not leaves:
-            continue
-        hits = [pn for pn, l2 in cp.items() if pn not in bp and l2 == leaves and pn.rsplit("::", 1)[0] == pm.rsplit("::", 1)[0]]
+        if pm in cp or not leaves or pm in cur_items:
+            continue            # (an outer function that is still there did not get a new name: its nested items moved somewhere else)
+        hits = [pn for pn, l2 in cp.items() if pn not in bp and pn not in base_items and l2 == leaves and pn.rsplit("::", 1)[0] == pm.rsplit("::", 1)[0]]
         rivals = [p2 for p2, l2 in bp.items() if p2 != pm and p2 not in cp and l2 == leaves and p2.rsplit("::", 1)[0] == pm.rsplit("::", 1)[0]]
         if len(hits) == 1 and not rivals:
             pairs[hits[0]] = pm
